@@ -32,6 +32,15 @@ impl<'a> Args<'a> {
 		let n = self.usize();
 		(0..n).map(|_| (self.bool(), self.u64())).collect()
 	}
+	fn opt_u16(&mut self) -> Option<u16> {
+		let d = self.u64();
+		let v = self.u16();
+		if d != 0 {
+			Some(v)
+		} else {
+			None
+		}
+	}
 	fn opt_u32(&mut self) -> Option<u32> {
 		let d = self.u64();
 		let v = self.u32();
@@ -173,6 +182,34 @@ fn dispatch(name: &str, a: &mut Args) -> String {
 			let (inbound, tag, ros, local, unk) = (a.bool(), a.u8(), a.u8(), a.bool(), a.bool());
 			let r = lightning::verif::channel::next_commitment_probe(inbound, tag, ros, local, unk);
 			format!("{} {} {}", r[0], r[1], r[2])
+		},
+		"compute_fee_from_spent_amounts" => {
+			let (inp, w, est) = (a.u64(), a.u64(), a.u32());
+			match lightning::verif::package::compute_fee_from_spent_amounts(inp, w, est) {
+				Some((f, r)) => format!("1 {} {}", f, r),
+				None => "0 0 0".to_string(),
+			}
+		},
+		"feerate_bump" => {
+			let (w, inp, dust, prev, strat, est) = (a.u64(), a.u64(), a.u64(), a.u64(), a.u8(), a.u32());
+			match lightning::verif::package::feerate_bump(w, inp, dust, prev, strat, est) {
+				Some((f, r)) => format!("1 {} {}", f, r),
+				None => "0 0 0".to_string(),
+			}
+		},
+		"compute_package_feerate" => {
+			let (prev, strat, est) = (a.u64(), a.u8(), a.u32());
+			format!("{}", lightning::verif::package::compute_package_feerate(prev, strat, est))
+		},
+		"monitor_event_threshold" => {
+			let (kind, h, csv, best) = (a.u8(), a.u32(), a.opt_u16(), a.u32());
+			let (t, r) = lightning::chain::channelmonitor::verif_hooks::onchain_event_threshold(kind, h, csv, best);
+			format!("{} {}", t, r as u8)
+		},
+		"onchaintx_event_threshold" => {
+			let (h, best) = (a.u32(), a.u32());
+			let (t, r) = lightning::verif::onchaintx::onchain_event_threshold(h, best);
+			format!("{} {}", t, r as u8)
 		},
 		_ => return format!("error unknown function {}", name),
 	}
